@@ -163,6 +163,17 @@ func timerDiscipline(p *Prog, r *Report, R string, filter func(rel string) bool)
 					}
 				}
 			}
+			// Reset re-arms the timer that is there: it counts as arming it
+			if c := CallOf(in); c != nil && !c.IsInvoke() {
+				if sc := c.StaticCallee(); sc != nil && sc.Name() == "Reset" && len(c.Args) >= 1 && isTimerPtr(c.Args[0].Type()) {
+					if k := timerFieldOf(c.Args[0]); k != "" {
+						if stores[k] == nil {
+							stores[k] = map[string][]string{}
+						}
+						stores[k][home] = append(stores[k][home], p.InstrPos(in))
+					}
+				}
+			}
 			if st, ok := in.(*ssa.Store); ok {
 				if fa, ok := st.Addr.(*ssa.FieldAddr); ok && isTimerPtr(st.Val.Type()) {
 					k := fieldKeyOf(fa)
